@@ -25,6 +25,7 @@ type TAct struct {
 	Reader    string            `json:"reader,omitempty"`
 	SlowMs    int               `json:"slow_ms,omitempty"`
 	HandlerMs int               `json:"handler_ms,omitempty"`
+	SelfClose int               `json:"self_close,omitempty"` // monitor: Close() from inside its n-th callback
 	Block     bool              `json:"block,omitempty"`
 	Async     bool              `json:"async,omitempty"`
 }
@@ -264,6 +265,7 @@ func (t *treeRun) act(a TAct) {
 		}
 		n.SlowEvery = ms(a.SlowMs)
 		n.HandlerMs = a.HandlerMs
+		n.SelfCloseAt = a.SelfClose
 		if a.Block {
 			n.BlockHandler = make(chan struct{})
 		}
